@@ -16,6 +16,7 @@
 #include <vector>
 #include <algorithm>
 #include <climits>
+#include <quadmath.h>
 
 using namespace GeographicLib;
 using mc::Ctx; using mc::fx; using mc::fmt; using mc::fmti; using mc::same_bits;
@@ -259,6 +260,80 @@ static void check_reverse(Ctx& ctx, int zone, bool northp, double x, double y, b
   ctx.worstf("roundtrip.forward_of_reverse_over_tol", exy / TOL_M, [&] { return key; });
   if (f.zone != zone || !(exy <= TOL_M)) ctx.fail(key, "Forward(Reverse) = zone " + fmti(f.zone) + " (" + fx(f.x) + "," + fx(fy) + ")", FF("roundtrip"));
   if (ctx.want_sample()) ctx.sample(key + " -> " + fmt(v.lat) + " " + fmt(v.lon));
+}
+
+// ------------------------------------------------------------------ polar rings: UPS against the closed form
+// Ellipsoidal polar stereographic in closed form (Snyder, Map Projections - A Working Manual, eqs. 15-9, 21-33, 21-32),
+// WGS84, k0 = 0.994, evaluated in __float128; independent of Math::tauf / taupf and of PolarStereographic.
+typedef __float128 Q;
+struct PolarCF {
+  Q a, e, e2, c, pi;
+  PolarCF() { Q f = (Q)1 / (Q)298.257223563Q; a = 6378137; e2 = f * (2 - f); e = sqrtq(e2); c = sqrtq(powq(1 + e, 1 + e) * powq(1 - e, 1 - e)); pi = M_PIq; }
+  // colatitude (radians) of |lat| degrees: 90 - |lat| is exact in binary128
+  Q colat(double abslat) const { return ((Q)90 - (Q)abslat) * pi / 180; }
+  Q rho(double abslat) const {
+    Q cl = colat(abslat), sphi = cosq(cl);
+    Q t = tanq(cl / 2) * powq((1 + e * sphi) / (1 - e * sphi), e / 2);
+    return 2 * a * (Q)0.994Q * t / c;
+  }
+  Q k(double abslat) const {
+    Q cl = colat(abslat);
+    if (cl == 0) return (Q)0.994Q;
+    Q sphi = cosq(cl), m = sinq(cl) / sqrtq(1 - e2 * sphi * sphi);
+    return rho(abslat) / (a * m);
+  }
+};
+static const PolarCF& polar() { static PolarCF p; return p; }
+// scale: nothing documented beyond "round-off"; calibrated to 4 x the worst relative error observed on the unchanged tree
+// over the thorough polar-ring lattice (5.6e-16, i.e. 2.5 eps; 4 x = 10 eps), which is below the 16 eps floor of the tolerance policy, so
+// the floor applies
+static const double TOL_K_CF_REL = 16 * 2.220446049250313e-16;
+
+static void check_polar(Ctx& ctx, bool np, double d, double sn, double cs_) {
+  Ctx::Case cs(ctx);
+  const double fe = 2000000.0;
+  double x = fe + d * sn, y = fe + d * cs_;
+  std::string key = std::string("UPS ") + (np ? "n" : "s") + " (" + fx(x) + "," + fx(y) + ") " + fmt(d) + " m from the pole";
+  mc::Fields F{{"northp", np ? "1" : "0"}, {"dist", fmt(d)}, {"x", fmt(x)}, {"y", fmt(y)}};
+  auto FF = [&](const char* kind) { mc::Fields g = F; g.push_back({"kind", kind}); return g; };
+  Q dx = (Q)x - fe, dy = (Q)y - fe, rin = hypotq(dx, dy);
+  Rev v = lib_reverse(0, np, x, y, false);
+  if (v.o.outcome != 0) { ctx.fail(key, "Reverse rejects a point next to the pole: " + v.o.what, FF("polar-rejected")); return; }
+  if (!(np ? (v.lat > 0 && v.lat <= 90) : (v.lat < 0 && v.lat >= -90))) { ctx.fail(key, "latitude " + fx(v.lat) + " in the wrong hemisphere / out of range", FF("polar-lat-range")); return; }
+  // (1) Reverse against the closed form, as ground distance: radial = |rho(lat) - rho|, tangential = rho * |dlon|
+  double er = (double)fabsq(polar().rho(std::fabs(v.lat)) - rin);
+  Q lonref = (np ? atan2q(dx, -dy) : atan2q(dx, dy)) * 180 / polar().pi;
+  double dl = (double)remainderq((Q)v.lon - lonref, 360);
+  double et = (double)(rin * fabsq((Q)dl) * polar().pi / 180);
+  double e1 = std::hypot(er, et);
+  ctx.worstf("polar.reverse_vs_closed_form_over_tol", e1 / TOL_M, [&] { return key; });
+  if (!(e1 <= TOL_M)) { ctx.fail(key, "Reverse gives (" + fx(v.lat) + "," + fx(v.lon) + "): " + fmt(er * 1e9) + " nm radially, " + fmt(et * 1e9) + " nm tangentially from the closed-form polar stereographic position", FF("polar-reverse")); return; }
+  // (2) scale against its closed form at the returned latitude
+  double kr = (double)polar().k(std::fabs(v.lat)), ek = std::fabs(v.k - kr) / kr;
+  ctx.worstf("polar.k_vs_closed_form_over_tol", ek / TOL_K_CF_REL, [&] { return key; });
+  if (!(ek <= TOL_K_CF_REL)) { ctx.fail(key, "scale k = " + fx(v.k) + ", closed form " + fx(kr) + " (relative difference " + fmt(ek) + ")", FF("polar-k")); return; }
+  // (3) Forward against the closed form at the returned (lat, lon), and Forward o Reverse on the ground
+  Fwd f = lib_forward(v.lat, v.lon, 0, false, !np);
+  if (f.o.outcome != 0) { ctx.fail(key, "Forward rejects the output of Reverse: " + f.o.what, FF("polar-closure")); return; }
+  Q rf = hypotq((Q)f.x - fe, (Q)f.y - fe);
+  double ef = (double)fabsq(polar().rho(std::fabs(v.lat)) - rf);
+  ctx.worstf("polar.forward_vs_closed_form_over_tol", ef / TOL_M, [&] { return key; });
+  if (!(ef <= TOL_M)) { ctx.fail(key, "Forward(" + fx(v.lat) + "," + fx(v.lon) + ") is " + fmt((double)rf) + " m from the pole, closed form " + fmt((double)polar().rho(std::fabs(v.lat))) + " m (" + fmt(ef * 1e9) + " nm)", FF("polar-forward")); return; }
+  double ekf = std::fabs(f.k - kr) / kr;
+  ctx.worstf("polar.k_vs_closed_form_over_tol", ekf / TOL_K_CF_REL, [&] { return key; });
+  if (!(ekf <= TOL_K_CF_REL)) { ctx.fail(key, "Forward scale k = " + fx(f.k) + ", closed form " + fx(kr), FF("polar-k")); return; }
+  double e3 = std::hypot(f.x - x, f.y - y);
+  ctx.worstf("polar.forward_of_reverse_over_tol", e3 / TOL_M, [&] { return key; });
+  if (f.zone != 0 || f.northp != np || !(e3 <= TOL_M)) { ctx.fail(key, "Forward(Reverse) = (" + fx(f.x) + "," + fx(f.y) + "), " + fmt(e3 * 1e9) + " nm on the ground from the starting point", FF("polar-roundtrip-fr")); return; }
+  // (4) Reverse o Forward on the ground
+  Rev w = lib_reverse(0, np, f.x, f.y, false);
+  if (w.o.outcome != 0) { ctx.fail(key, "Reverse rejects the output of Forward: " + w.o.what, FF("polar-closure")); return; }
+  double r4 = (double)fabsq(polar().rho(std::fabs(w.lat)) - polar().rho(std::fabs(v.lat)));
+  double t4 = (double)(rin * fabsq(remainderq((Q)w.lon - (Q)v.lon, 360)) * polar().pi / 180);
+  double e4 = std::hypot(r4, t4);
+  ctx.worstf("polar.reverse_of_forward_over_tol", e4 / TOL_M, [&] { return key; });
+  if (!(e4 <= TOL_M)) ctx.fail(key, "Reverse(Forward(" + fx(v.lat) + "," + fx(v.lon) + ")) = (" + fx(w.lat) + "," + fx(w.lon) + "), " + fmt(e4 * 1e9) + " nm on the ground away", FF("polar-roundtrip-rf"));
+  if (ctx.want_sample()) ctx.sample(key + " -> " + fmt(v.lat) + " " + fmt(v.lon) + " k " + fmt(v.k));
 }
 
 // ------------------------------------------------------------------ (d) Transfer
@@ -532,6 +607,24 @@ int main(int argc, char** argv) {
       for (double x = R.xmin; x <= R.xmax; x += xstep * km) {
         if (!ctx.take()) continue;
         for (double y = R.ymin; y <= R.ymax; y += ystep * km) for (int mg = 0; mg < 2; ++mg) check_reverse(ctx, zone, np, x, y, mg);
+      }
+    }
+  }
+
+  // ================================================================= polar rings (UPS close to the poles, ground distances)
+  {
+    ctx.sub("polar-rings");
+    std::vector<double> ds{1e-3, 1, 100, 1000, 2000, 3000, 3500, 4000, 4500, 5000, 5250, 5500, 6000, 8000, 10000, 30000};
+    int ndir = T ? 24 : 8;
+    if (T) { for (int k = 1; k <= 48; ++k) ds.push_back(250.0 * k); for (double d : {1e-6, 1e-2, 10.0, 20000.0, 50000.0, 100000.0, 200000.0, 400000.0, 800000.0}) ds.push_back(d); uniq(ds); }
+    ctx.bound("polar-rings", std::string("UPS, both hemispheres: ") + fmti((long long)ds.size()) + " distances from the pole (1 mm, 1 m, 100 m, 1, 2, 3, 3.5, 4, 4.5, 5, 5.25, 5.5, 6, 8, 10, 30 km" + (T ? "; every 250 m to 12 km; 1 um .. 800 km" : "") + ") x " + fmti(ndir) + " directions: Reverse, Forward, scale against the closed-form polar stereographic projection (binary128) and both round trips as ground distance, 10 nm");
+    for (int np = 0; np < 2; ++np) for (double d : ds) {
+      if (!ctx.take()) continue;
+      for (int i = 0; i < ndir; ++i) {
+        int deg = i * (360 / ndir);
+        double sn = (double)sinq((Q)deg * M_PIq / 180), cn = (double)cosq((Q)deg * M_PIq / 180);
+        if (deg % 90 == 0) { sn = deg == 90 ? 1 : deg == 270 ? -1 : 0; cn = deg == 0 ? 1 : deg == 180 ? -1 : 0; }
+        check_polar(ctx, np, d, sn, cn);
       }
     }
   }
